@@ -215,9 +215,19 @@ def fam_control(rnd: random.Random, ninputs: int = 12):
             elif k < 0.8:
                 out += _ifelse(g, g.cond(), block(depth - 1), block(depth - 1) if rnd.random() < 0.7 else [])
             elif k < 0.9:
-                if rnd.random() < 0.25:
-                    # a conditional jump straight to an invalid destination: only the jumping inputs halt
-                    out += compile_expr(g.cond()) + [("PUSH", rnd.choice([0xFFFF, 0xFFFFFF])), "JUMPI"]
+                if rnd.random() < 0.35:
+                    # a conditional jump straight to an invalid destination: only the jumping inputs halt ...
+                    if rnd.random() < 0.5:
+                        # ... and the fall-through continues with a branch on the same input (decided by the solver
+                        # under the negated jump condition): `if (x < c1) invalid; if (x > c2) A else B`
+                        i = ("in", rnd.randrange(g.nin))
+                        c1 = rnd.choice([1, 10, 256, 2**128])
+                        c2 = c1 * 2 + rnd.choice([0, 1, 20])
+                        g.consts.update({c1, c2})
+                        out += compile_expr(("LT", i, ("c", c1))) + [("PUSH", rnd.choice([0xFFFF, 0xFFFFFF])), "JUMPI"]
+                        out += _ifelse(g, ("GT", i, ("c", c2)), store(rnd.randrange(nslots)), store(rnd.randrange(nslots)))
+                    else:
+                        out += compile_expr(g.cond()) + [("PUSH", rnd.choice([0xFFFF, 0xFFFFFF])), "JUMPI"]
                 else:
                     out += _ifelse(g, g.cond(), terminal(), [])
             else:
